@@ -42,11 +42,18 @@ pub fn install_panic_hook() {
     }));
 }
 
+/// Payload used to unwind out of a run that cannot continue.
+pub struct AbortRun;
+
 pub fn clear_panic() {
     LAST_PANIC.lock().unwrap_or_else(|e| e.into_inner()).take();
 }
 
-pub fn record_panic(_payload: Box<dyn Any + Send>) {
+pub fn record_panic(payload: Box<dyn Any + Send>) {
+    if payload.is::<AbortRun>() {
+        clear_panic();
+        return;
+    }
     let msg = LAST_PANIC
         .lock()
         .unwrap_or_else(|e| e.into_inner())
